@@ -20,19 +20,20 @@
      W1  Writer.Reset(dst) discards all state of the writer, including "closed" and a sticky error
      W2  Close writes everything still buffered plus the stream trailer to dst and nothing else
    Variant selects the wrapper design:
-     "fixed"         as repaired (fixes/C20-*.patch)
-     "codeBrotli"    as found: brotliDecompressor.Reset relies on brotli.Reader.Reset (R1b)
-     "codeIdentity"  as found: noOpCompressor adopts the Close method of an io.WriteCloser sink
-     "code"          both as found;  "either": every outcome of "code" and of "fixed" (trace following)
+     "fixed"         the wrappers of the repository - what the code must do
+     "codeBrotli"    refuted design: brotliDecompressor.Reset relying on brotli.Reader.Reset (R1b)
+     "codeIdentity"  refuted design: noOpCompressor adopting the Close method of an io.WriteCloser sink
+     "codeGzip"      refuted design: the bare zero gzip.Reader handed out without a wrapper (R3)
+     "code"          all three (the wrappers as they were before the fix: commits)
      anything else   a named mutant of the design (MC_Compress_x_*.cfg)                          *)
 EXTENDS CompressDecl
 
 CONSTANT Variant
 
 (* ------------------------------ reader objects ------------------------------ *)
-AsFoundBrotli   == Variant \in {"code", "codeBrotli", "either"}
-AsFoundIdentity == Variant \in {"code", "codeIdentity", "either"}
-AsRepaired      == Variant \notin {"code", "codeBrotli", "codeIdentity"}     \* incl. "either", mutants
+BrotliRelies     == Variant \in {"code", "codeBrotli"}
+IdentityAdopts   == Variant \in {"code", "codeIdentity"}
+GzipUnwrapped    == Variant \in {"code", "codeGzip"}
 
 \* clean: no leftover state - a valid stream will be decoded as R5 says;  left: unconsumed input
 \* of the bound stream is buffered;  hard: the decoder itself has failed (brotli error_code < 0)
@@ -103,7 +104,7 @@ Ret(st, ret) == [st |-> st, ret |-> ret, eq |-> <<>>, from |-> 0]
 
 DNewW(z) ==
   CASE z = "identity" -> WD("nil", NoLib)                 \* noOpDecompressor{ReadCloser: nil}
-    [] z = "gzip"     -> WD("live", LNew("gzipR"))        \* &gzip.Reader{} - no wrapper at all
+    [] z = "gzip"     -> WD("live", LNew("gzipR"))        \* &gzipDecompressor{} around a zero gzip.Reader
     [] z = "br"       -> WD("live", LNew("brotliR"))      \* brotli.NewReader(nil)
     [] z = "snappy"   -> WD("live", LNew("snappyR"))      \* snappy.NewReader(nil)
     [] z = "zstd"     -> WD("live", LNew("zstdD"))        \* zstd.NewReader(nil)
@@ -113,9 +114,10 @@ DResetW(z, st, s) ==
   CASE z = "identity" -> {Ret(WD("live", [LNew("ident") EXCEPT !.src = s]), "ok")}
     [] z \in {"gzip", "snappy"} -> {WOut(WD("live", o.L), o) : o \in LReset(st.L, s)}
     [] z = "br" ->
-         \* as found: c.reader.Reset(rdr) (R1b);  as repaired: c.reader = brotli.NewReader(rdr)
-         (IF AsFoundBrotli THEN {WOut(WD("live", o.L), o) : o \in LReset(st.L, s)} ELSE {}) \cup
-         (IF AsRepaired THEN {Ret(WD("live", Bound(LNew("brotliR"), s)), "ok")} ELSE {})
+         \* c.reader = brotli.NewReader(rdr): a fresh Reader, because of R1b
+         \* (refuted design: c.reader.Reset(rdr))
+         IF BrotliRelies THEN {WOut(WD("live", o.L), o) : o \in LReset(st.L, s)}
+         ELSE {Ret(WD("live", Bound(LNew("brotliR"), s)), "ok")}
     [] z = "zstd" ->
          IF st.w = "nil"
            THEN IF Variant = "zstdNoLazyNew" THEN {Ret(st, "err")}
@@ -134,12 +136,17 @@ DReadW(z, st, all, cap) ==
          ELSE {[st |-> WD("live", [st.L EXCEPT !.rd = Adv(st.L.rd, all, cap)]), ret |-> "ok",
                 eq |-> <<>>, from |-> st.L.rd]}                           \* no integrity check at all
   ELSE IF st.w = "nil" THEN {Ret(st, "ok")}                               \* zstd, deflate: (0, io.EOF)
-  ELSE IF st.w = "err" THEN {Ret(st, "err")}                              \* errorDecompressor
+  ELSE IF st.w = "err" THEN {Ret(st, "err"), Ret(st, "ok")}               \* errorDecompressor: the header
+                                              \* error again - which a chunk reader takes as "ended" if it is an EOF kind
   ELSE {WOut(WD("live", o.L), o) : o \in LRead(st.L, all, cap)}
 
 DCloseW(z, st) ==
   CASE z = "identity" -> IF st.w = "nil" THEN {Ret(st, "panic")} ELSE {Ret(st, "ok")}
-    [] z = "gzip"     -> {WOut(WD("live", o.L), o) : o \in LClose(st.L)}
+    [] z = "gzip"     ->
+         \* gzipDecompressor.Close: nothing to close until a Reset got past a header (ready = the
+         \* zero Reader has its inner flate reader, R3); refuted design: gzip.Reader.Close directly
+         IF ~st.L.inner /\ ~GzipUnwrapped THEN {Ret(st, "ok")}
+         ELSE {WOut(WD("live", o.L), o) : o \in LClose(st.L)}
     [] z \in {"br", "snappy"} -> {Ret(st, "ok")}                          \* R4: nothing to close
     [] z = "zstd" ->
          IF st.w = "nil" THEN {Ret(st, "ok")}
@@ -195,11 +202,9 @@ CStep(z, st, pipeOpen, op) ==
            THEN {COut([st EXCEPT !.closed = TRUE], pipeOpen, r, <<"?">>) : r \in {"ok", "err"}}
          ELSE LET emitted == IF Variant = "closeNoFlush" /\ z # "identity" THEN <<"?">>
                              ELSE Flat(st.pend)                                            \* W2
-                  \* as found: noOpCompressor.Reset keeps an io.WriteCloser sink as its own
-                  \* WriteCloser, so Close closes the SINK;  as repaired: always a noOpCloser
-                  stillOpen == IF z = "identity" /\ st.sink = "pipe"
-                               THEN (IF AsFoundIdentity THEN {FALSE} ELSE {}) \cup
-                                    (IF AsRepaired THEN {pipeOpen} ELSE {})
-                               ELSE {pipeOpen}
-              IN {COut([st EXCEPT !.closed = TRUE], po, "ok", emitted) : po \in stillOpen}
+                  \* noOpCompressor always wraps its sink in a noOpCloser: Close never reaches the
+                  \* sink (refuted design: an io.WriteCloser sink kept as is, so Close closes the SINK)
+                  stillOpen == IF z = "identity" /\ st.sink = "pipe" /\ IdentityAdopts
+                               THEN FALSE ELSE pipeOpen
+              IN {COut([st EXCEPT !.closed = TRUE], stillOpen, "ok", emitted)}
 =============================================================================
